@@ -57,8 +57,8 @@ RULE = ("a case = one input grid (Grid2D on a hostile mask up to 7x8 with anisot
         "every decorated method of the profile is called on it. distinct = distinct (grid kind, mask bits, coordinate "
         "values, profile class, centre, angle, tag coefficients); non-trivial = at least two coordinates with pairwise "
         "distinct tags (a single-coordinate grid cannot show a re-ordering) ")
-BOUNDS = {"quick": "2400 Grid2D cases, 1600 Grid2DIrregular cases, 1600 Grid1D cases; masks up to 7x8",
-          "thorough": "120000 Grid2D cases, 80000 Grid2DIrregular cases, 80000 Grid1D cases; masks up to 7x8"}
+BOUNDS = {"quick": "5600 cases = 2400 Grid2D + 1600 Grid2DIrregular + 1600 Grid1D cases; masks up to 7x8",
+          "thorough": "280000 cases = 120000 Grid2D + 80000 Grid2DIrregular + 80000 Grid1D cases; masks up to 7x8"}
 EXHAUSTIVE = {"quick": False, "thorough": False}
 ASSUMPTIONS = [
     "entries are compared bit-exactly with the tag of the coordinate the probe received (containers must not alter values)",
@@ -82,14 +82,20 @@ MIN_MONITORS = {"*": {k: 20 for k in _DECIDING}}
 RADIAL_MIN = {"VerifC17Small": 1e-8, "VerifC17Mid": 0.3, "VerifC17Big": 2.5}
 
 
+# every unit interleaves the three grid kinds; global case number g -> (kind, per-kind index)
+CYCLE = ("grid2d", "irregular", "grid1d", "grid2d", "irregular", "grid1d", "grid2d")
+TOTAL = {"quick": 5600, "thorough": 280000}
+
+
+def kind_index(g):
+    c, pos = divmod(g, len(CYCLE))
+    kind = CYCLE[pos]
+    return kind, c * CYCLE.count(kind) + CYCLE[:pos].count(kind)
+
+
 def plan(tier, seed):
-    n2, ni, n1 = (2400, 1600, 1600) if tier == "quick" else (120000, 80000, 80000)
-    ch = 100 if tier == "quick" else 500
-    units = []
-    for kind, n, w in (("grid2d", n2, 2.0), ("irregular", ni, 1.0), ("grid1d", n1, 1.0)):
-        for s in range(0, n, ch):
-            units.append({"kind": kind, "start": s, "stop": min(n, s + ch), "w": (min(n, s + ch) - s) * w})
-    return units
+    n, ch = TOTAL[tier], (70 if tier == "quick" else 490)
+    return [{"kind": "mix", "start": s, "stop": min(n, s + ch), "w": min(n, s + ch) - s} for s in range(0, n, ch)]
 
 
 # ------------------------------------------------------------------------------ probes
@@ -613,9 +619,10 @@ def check_grid1d(ctx, i):
 
 
 def run_unit(ctx, u):
-    fn = {"grid2d": check_grid2d, "irregular": check_irregular, "grid1d": check_grid1d}[u["kind"]]
-    for i in range(u["start"], u["stop"]):
-        fn(ctx, i)
+    fn = {"grid2d": check_grid2d, "irregular": check_irregular, "grid1d": check_grid1d}
+    for g in range(u["start"], u["stop"]):
+        kind, j = kind_index(g)
+        fn[kind](ctx, j)
 
 
 def post(merged, inconclusive, tier):
